@@ -329,6 +329,13 @@ impl<'a> Printer<'a> {
                 }
                 if !l.is_empty() {
                     r.push_str(ind);
+                } else {
+                    // blank interior lines may carry any amount of whitespace up to the common indentation
+                    match self.choose(3) {
+                        0 => {}
+                        1 => r.push_str(ind),
+                        _ => r.push_str(&ind[..1]),
+                    }
                 }
                 r.push_str(l);
             }
